@@ -36,10 +36,46 @@ def _custom_types():
     return CustomT, NoMod
 
 
+class Outer:
+    """class-nested types: __qualname__ = "Outer.Inner..." differs from __name__"""
+    class Inner:
+        pass
+
+    class Deep:
+        class Leaf:
+            pass
+
+
+def _local_types():
+    """types defined by `class` statements inside a function: __qualname__ contains "<locals>" """
+    import cincoconfig as cc
+    from cincoconfig.core import ConfigType
+    inner = cc.Schema()
+    inner.port = cc.IntField(default=1)
+
+    class Endpoint(ConfigType):      # function-local config type
+        __schema__ = inner
+
+    class Local:                     # function-local annotation / storage class
+        pass
+
+    class Holder:                    # function-local class with a nested class
+        class Item:
+            pass
+    inner2 = cc.Schema()
+    inner2.url = cc.StringField()
+
+    class NestedCT:
+        class Hook(ConfigType):      # config type nested in a (function-local) class
+            __schema__ = inner2
+    return {"Endpoint": Endpoint, "Local": Local, "LocalItem": Holder.Item, "Hook": NestedCT.Hook}
+
+
 def _field_builders():
     import cincoconfig as cc
     from cincoconfig.core import Field
     CustomT, NoMod = _custom_types()
+    LT = _local_types()
 
     def sub():
         s = cc.Schema()
@@ -71,6 +107,12 @@ def _field_builders():
         "virtual": lambda: cc.VirtualField(lambda c: 1), "virtual_rw": lambda: cc.VirtualField(lambda c: 2, lambda c, v: None),
         "st_str": lambda: with_st("asdf"), "st_empty": lambda: with_st(""), "st_custom": lambda: with_st(CustomT),
         "st_nomod": lambda: with_st(NoMod), "st_optional": lambda: with_st(__import__("typing").Optional[int]),
+        # types whose __qualname__ differs from __name__ (a config type class becomes a ConfigTypeField)
+        "local_ct": lambda: LT["Endpoint"], "nested_local_ct": lambda: LT["Hook"],
+        "st_local": lambda: with_st(LT["Local"]), "st_local_nested": lambda: with_st(LT["LocalItem"]),
+        "st_nested": lambda: with_st(Outer.Inner), "st_deep": lambda: with_st(Outer.Deep.Leaf),
+        "st_list_nested": lambda: with_st(__import__("typing").List[Outer.Inner]),
+        "st_dict_deep": lambda: with_st(__import__("typing").Dict[str, Outer.Deep.Leaf]),
     }
 
 
@@ -78,13 +120,16 @@ FIELD_KINDS = ["int", "str", "float", "bool", "bytes", "field", "number_int", "n
                "hostname", "filename", "url", "loglevel", "appmode", "include", "featureflag", "challenge", "secure",
                "list", "list_int", "list_str", "list_list_int", "list_dict", "list_sub", "list_ct", "list_challenge",
                "list_any", "dict", "dict_str_int", "dict_str", "dict_val_bool", "dict_str_listint", "dict_str_listsub",
-               "virtual", "virtual_rw", "st_str", "st_empty", "st_custom", "st_nomod", "st_optional"]
+               "virtual", "virtual_rw", "st_str", "st_empty", "st_custom", "st_nomod", "st_optional",
+               "local_ct", "nested_local_ct", "st_local", "st_local_nested", "st_nested", "st_deep", "st_list_nested",
+               "st_dict_deep"]
 
 
 def _method_ns():
     import typing
     from cincoconfig.core import Config
-    ns = {"typing": typing, "Config": Config}
+    ns = {"typing": typing, "Config": Config, "Outer": Outer}
+    ns.update(_local_types())
     for n in ("Optional", "List", "Dict", "Callable", "Tuple", "Union", "Sequence", "Literal", "Any", "Set", "Type"):
         ns[n] = getattr(typing, n)
     return ns
@@ -499,7 +544,10 @@ ANNS = ["int", "str", "float", "bool", "bytes", "None", "object", "typing.Any", 
         "Dict[str, int]", "list[int]", "int | None", "Callable[..., int]", "Callable[[int, str], bool]",
         "Tuple[int, str]", "Tuple[()]", "Union[int, str]", "'Foo'", "'a.b.C'", "Config", "Optional['Foo']",
         "typing.List[typing.Dict[str, typing.Optional[int]]]", "dict[str, list[int]]", "Sequence[int]",
-        "Literal['a', 'b']", "Set[int]", "Type[int]", "List", "''"]
+        "Literal['a', 'b']", "Set[int]", "Type[int]", "List", "''",
+        # classes whose __qualname__ differs from __name__: function-local, class-nested
+        "Local", "Endpoint", "LocalItem", "Hook", "Outer.Inner", "Outer.Deep.Leaf", "List[Outer.Inner]",
+        "Optional[Outer.Deep.Leaf]"]
 
 # hand-written pool: every parameter kind, annotated with builtins / typing constructs / not at all,
 # with and without a return annotation
@@ -548,6 +596,10 @@ POOL = [
     "def f(cfg, a: Config, b: Optional['Foo'] = None) -> Config: pass",
     "def f(cfg: 'Config', a: float, b: bool) -> float: pass",
     "def f(cfg, a: '') -> '': pass",
+    "def f(cfg, target: Endpoint, retries: int = 3) -> Local: pass",
+    "def f(cfg, a: Local, *, k: LocalItem = None) -> Hook: pass",
+    "def f(cfg, a: Outer.Inner, b: Outer.Deep.Leaf = None) -> Outer.Inner: pass",
+    "def f(cfg, a: List[Outer.Inner], *args, k: Dict[str, Outer.Deep.Leaf]) -> Optional[Outer.Inner]: pass",
 ]
 # region of the open finding F45: no plain leading positional parameter
 POOL_F45 = [
